@@ -207,3 +207,41 @@ Proof.
   intros W R t1 t2 pc1 pc2 m P1 P2 M1 M2. destruct (cinv_run p n sched W s R) as (_ & I).
   apply (I t1 pc1 P1) in M1. apply (I t2 pc2 P2) in M2. congruence.
 Qed.
+
+(* ---- the critical section of hit --------------------------------------------------------- *)
+Lemma scan_positions m p : forall h sec i a, nth_error p i = Some a -> special a <> 0 ->
+  exists s0, In (special a, memz m (fold_left held_step (firstn i p) h), s0) (scan m h sec p).
+Proof.
+  induction p as [|x tl IH]; intros h sec i a H Sp; [destruct i; discriminate|].
+  destruct i as [|i]; cbn in H.
+  - injection H as ->. cbn [scan firstn fold_left]. apply Z.eqb_neq in Sp. rewrite Sp.
+    eexists. left. reflexivity.
+  - cbn [scan firstn fold_left].
+    destruct (IH (held_step h x) (match x with ALock y => if y =? m then S sec else sec | _ => sec end) i a H Sp) as (s0 & Hin).
+    exists s0. destruct (special x =? 0); [exact Hin | right; exact Hin].
+Qed.
+
+Lemma section_of_held p m : section_of p m = true ->
+  forall i a, nth_error p i = Some a -> special a <> 0 -> memz m (held_at p i) = true.
+Proof.
+  unfold section_of. intros S i a H Sp.
+  destruct (scan_positions m p [] 0%nat i a H Sp) as (s0 & Hin). fold (held_at p i) in Hin.
+  destruct (scan m [] 0 p) as [|[[k1 b1] s1] [|[[k2 b2] s2] [|[[k3 b3] s3] [|? ?]]]]; try discriminate.
+  repeat (apply andb_true_iff in S as [S ?]). subst.
+  destruct Hin as [E|[E|[E|[]]]]; injection E as _ E _; symmetry; exact E.
+Qed.
+
+(* if the checker accepts, no two threads are ever simultaneously at (or between) the clock
+   read, the sequence read and the increment: the section is critical *)
+Lemma same_section_critical p : same_section_ok p = true ->
+  forall n sched s, crun p (cinit n) sched = Some s ->
+  forall t1 t2 pc1 pc2 a1 a2,
+    nth_error (pcs s) t1 = Some pc1 -> nth_error (pcs s) t2 = Some pc2 ->
+    nth_error p pc1 = Some a1 -> nth_error p pc2 = Some a2 ->
+    special a1 <> 0 -> special a2 <> 0 -> t1 = t2.
+Proof.
+  unfold same_section_ok. intros S n sched s R t1 t2 pc1 pc2 a1 a2 P1 P2 A1 A2 S1 S2.
+  apply andb_true_iff in S as [W E]. apply existsb_exists in E as (m & _ & Sm).
+  eapply (mutex_exclusive p n sched s W R t1 t2 pc1 pc2 m P1 P2);
+    eapply section_of_held; eassumption.
+Qed.
